@@ -139,6 +139,7 @@ type Record struct {
 	Run        RunRec      `json:"run"`
 	Violations []Violation `json:"violations"`
 	Note       string      `json:"note,omitempty"`
+	Trace      []string    `json:"trace,omitempty"` // human-readable rendering of Run (informational; replay uses Run)
 }
 
 // ProcResult is what one sim / replay process reports.
